@@ -20,6 +20,7 @@ EXPLANATION = (
     "inline responses: no spawn between read and write in the TCP loops (C05) and one FIFO + one writer on WebSocket. "
     "(response-flushed) in both TCP loops every path from a response write to the next blocking read crosses writer.flush(). Not "
     "decided: enumeration of pipelined sequences; per-handler-kind agreement is C07."
+    " (transport-agreement, request-is-the-routing-key: shared with C07) each handler's owned and borrowed paths have identical decision rows, mounts resolve the query of the request they were handed, and every in-crate delegation to a downstream handler hands on the request it received, so error responses built by inner handlers echo the caller's id and query."
 )
 ASSUMPTIONS = ["tokio mpsc channels are FIFO", "a `dyn HandlerErased` call runs the handler body once"]
 
